@@ -48,6 +48,7 @@ type C11Case struct {
 	Budgets  []uint64 `json:"budgets,omitempty"` // empty: derive from tier
 	Tier     string   `json:"tier"`
 	NoRef    bool     `json:"no_unlimited_reference,omitempty"` // pathological: never parse without budget
+	Order    string   `json:"order,omitempty"`                  // per API (grammar.Parse, CreateEvaluator): R reference first, L limited first; empty: seeded
 }
 
 func (c *C11Case) Bytes() []byte {
@@ -207,13 +208,18 @@ func limitedParse(api int, in []byte, n uint64, useOpt bool, variant int, entryS
 		default:
 			var opts []bexpr.Option
 			if useOpt {
-				switch variant % 3 {
-				case 0:
+				// the budget must reach the parser whatever else is configured
+				switch variant % 6 {
+				case 0, 1:
 					opts = []bexpr.Option{bexpr.WithMaxExpressions(n)}
-				case 1:
+				case 2:
 					opts = []bexpr.Option{bexpr.WithTagName("json"), bexpr.WithMaxExpressions(n)}
-				default:
+				case 3:
 					opts = []bexpr.Option{bexpr.WithMaxExpressions(n), bexpr.WithUnknownValue("")}
+				case 4:
+					opts = []bexpr.Option{bexpr.WithMaxExpressions(n), bexpr.WithTagName("bexpr"), nil}
+				default:
+					opts = []bexpr.Option{bexpr.WithHookFn(func(v reflect.Value) reflect.Value { return v }), bexpr.WithMaxExpressions(n)}
 				}
 			}
 			ev, err := bexpr.CreateEvaluator(string(in), opts...)
@@ -354,6 +360,12 @@ func budgetsFor(c *C11Case, S uint64, r *plan.Rand) (bs []uint64, exhaustive boo
 			}
 		}
 	}
+	if !c.NoRef {
+		// very large budgets are unlimited in effect (and must not wrap around)
+		for _, n := range []uint64{1 << 31, 1<<32 + 1, 1 << 62, 1 << 63, ^uint64(0) - 1, ^uint64(0)} {
+			add(n)
+		}
+	}
 	for n := range set {
 		bs = append(bs, n)
 	}
@@ -362,6 +374,13 @@ func budgetsFor(c *C11Case, S uint64, r *plan.Rand) (bs []uint64, exhaustive boo
 }
 
 // RunC11Case enumerates the abort points of one input and applies the oracles.
+//
+// Each API is driven in one of two orders (seeded per input and API, so that
+// over a run both orders meet both APIs): "reference first" parses without a
+// budget and then sweeps the budgets; "limited first" locates the threshold
+// through the public option alone (geometric ascent, then bisection) before the
+// input is ever parsed without a budget through that API. The outcome for a
+// budget must not depend on which of the two happened before.
 func RunC11Case(env *C11Env, c C11Case, seed uint64) C11Result {
 	in := c.Bytes()
 	res := C11Result{Case: c}
@@ -371,47 +390,119 @@ func RunC11Case(env *C11Env, c C11Case, seed uint64) C11Result {
 	other := []byte("zz == 1 and (b in c)")
 	refOther, _, _ := limitedParse(apiParse, other, 0, false, 0, env.EntrySites)
 
+	order := c.Order
+	if len(order) != 2 {
+		bit := plan.Mix(seed, hashBytes(in)) & 1
+		order = []string{"RL", "LR"}[bit]
+	}
+	res.Case.Order = order
+	isBudgetErr := func(o parseOutcome) bool {
+		return o.Panic == "" && !o.OK && o.NilRes && o.Dump == "" && env.Signature != "" && strings.Contains(o.Err, env.Signature)
+	}
+	geoCap := uint64(1) << 18
+	if c.Tier == "thorough" {
+		geoCap = 1 << 22
+	}
 	var ref [2]parseOutcome
-	var S uint64
-	if !c.NoRef {
-		for api := 0; api < 2; api++ {
+	for api := 0; api < 2 && len(res.Violations) <= 8; api++ {
+		viol := func(kind string, n, n2 uint64, detail string, got parseOutcome) {
+			res.Violations = append(res.Violations, C11Violation{Kind: kind, API: apiNames[api], N: n, N2: n2, Detail: detail, Got: got, Want: ref[api]})
+		}
+		// probe runs one limited parse and applies the work bounds
+		probe := func(n uint64, variant int) (parseOutcome, bool) {
+			o, entries, steps := limitedParse(api, in, n, true, variant, env.EntrySites)
+			res.Budgets++
+			be := isBudgetErr(o)
+			if ratio := float64(steps) / (float64(n) + 1); ratio > res.MaxRatio && be {
+				res.MaxRatio = ratio
+			}
+			// n+1 and K*(n+1)+C saturate instead of wrapping around for huge budgets
+			n1 := n + 1
+			if n1 == 0 {
+				n1 = ^uint64(0)
+			}
+			propBound := ^uint64(0)
+			if n1 < (^uint64(0)-env.C)/env.K {
+				propBound = env.K*n1 + env.C
+			}
+			if len(env.EntrySites) > 0 && entries > n1 {
+				viol("work-bound", n, 0, fmt.Sprintf("limited parse executed %d parser steps (parseExpr entries), more than n+1 = %d", entries, n+1), o)
+			} else if steps > propBound {
+				viol("work-proportional", n, 0, fmt.Sprintf("limited parse executed %d statements, more than %d*(n+1)+%d", steps, env.K, env.C), o)
+			}
+			if be {
+				res.Aborts++
+			}
+			return o, be
+		}
+		unlimited := func() uint64 {
 			o, entries, _ := limitedParse(api, in, 0, false, 0, env.EntrySites)
 			ref[api] = o
-			if api == apiParse {
-				S = entries
+			if isBudgetErr(o) {
+				viol("zero-differs", 0, 0, "a parse without any budget failed with the max-expressions error", o)
 			}
 			// n = 0 means unlimited
 			z, _, _ := limitedParse(api, in, 0, true, 0, env.EntrySites)
 			if !z.same(o) {
-				res.Violations = append(res.Violations, C11Violation{Kind: "zero-differs", API: apiNames[api], N: 0, Detail: "budget 0 must behave like no budget", Got: z, Want: o})
+				viol("zero-differs", 0, 0, "budget 0 must behave like no budget", z)
 			}
+			return entries
 		}
-		res.S = S
-		res.UnlimitedOK = ref[apiParse].OK
-	}
-	bs, exhaustive := budgetsFor(&c, S, r)
-	res.Exhaustive = exhaustive
-	res.Budgets = len(bs) * 2
-	isBudgetErr := func(o parseOutcome) bool {
-		return o.Panic == "" && !o.OK && o.NilRes && o.Dump == "" && env.Signature != "" && strings.Contains(o.Err, env.Signature)
-	}
-	for api := 0; api < 2; api++ {
+		var S uint64
+		if order[api] == 'L' {
+			// locate the threshold before any unlimited parse
+			var lo, hi uint64 // lo fails, hi succeeds
+			var atHi parseOutcome
+			found := false
+			for n := uint64(1); n <= geoCap; n *= 2 {
+				o, be := probe(n, 0)
+				if be {
+					lo = n
+					continue
+				}
+				hi, atHi, found = n, o, true
+				break
+			}
+			for found && hi-lo > 1 {
+				mid := lo + (hi-lo)/2
+				o, be := probe(mid, 0)
+				if be {
+					lo = mid
+				} else {
+					hi, atHi = mid, o
+				}
+			}
+			if !c.NoRef {
+				e := unlimited()
+				S = e
+				if found && !atHi.same(ref[api]) {
+					viol("third-outcome", hi, 0, "the first budget that does not fail gives a result different from the parse without budget that followed it", atHi)
+				}
+				if found && e < hi-1 && len(env.EntrySites) > 0 && e > 0 {
+					// informative only: threshold above the step count is allowed by the statement
+				}
+				if S == 0 && found {
+					S = hi
+				}
+			} else if found {
+				S = hi
+			}
+		} else if !c.NoRef {
+			S = unlimited()
+		}
+		if api == apiParse {
+			res.S = S
+			res.UnlimitedOK = ref[apiParse].OK
+		}
+		bs, exhaustive := budgetsFor(&c, S, r)
+		if api == apiParse {
+			res.Exhaustive = exhaustive
+		}
 		var firstOK uint64
 		haveOK := false
 		var okOutcome parseOutcome
 		for i, n := range bs {
-			o, entries, steps := limitedParse(api, in, n, true, i, env.EntrySites)
-			if ratio := float64(steps) / float64(n+1); ratio > res.MaxRatio && isBudgetErr(o) {
-				res.MaxRatio = ratio
-			}
-			if len(env.EntrySites) > 0 && entries > n+1 {
-				res.Violations = append(res.Violations, C11Violation{Kind: "work-bound", API: apiNames[api], N: n,
-					Detail: fmt.Sprintf("limited parse executed %d parser steps (parseExpr entries), more than n+1 = %d", entries, n+1), Got: o, Want: ref[api]})
-			} else if steps > env.K*(n+1)+env.C {
-				res.Violations = append(res.Violations, C11Violation{Kind: "work-proportional", API: apiNames[api], N: n,
-					Detail: fmt.Sprintf("limited parse executed %d statements, more than %d*(n+1)+%d", steps, env.K, env.C), Got: o, Want: ref[api]})
-			}
-			budgetErr := isBudgetErr(o)
+			o, budgetErr := probe(n, i)
 			var unlimitedLike bool
 			if c.NoRef {
 				unlimitedLike = !budgetErr && o.Panic == "" && (o.OK || o.Err != "")
@@ -424,10 +515,8 @@ func RunC11Case(env *C11Env, c C11Case, seed uint64) C11Result {
 			}
 			switch {
 			case budgetErr:
-				res.Aborts++
 				if haveOK {
-					res.Violations = append(res.Violations, C11Violation{Kind: "non-monotone", API: apiNames[api], N: n, N2: firstOK,
-						Detail: fmt.Sprintf("budget %d fails although the smaller budget %d gave the unlimited result", n, firstOK), Got: o, Want: ref[api]})
+					viol("non-monotone", n, firstOK, fmt.Sprintf("budget %d fails although the smaller budget %d gave the unlimited result", n, firstOK), o)
 				}
 				// residue: the abort happened with rule/variable/recovery stacks arbitrarily deep
 				if i%17 == 0 || i+1 == len(bs) || (i+1 < len(bs) && bs[i+1] >= S && !c.NoRef) {
@@ -440,8 +529,7 @@ func RunC11Case(env *C11Env, c C11Case, seed uint64) C11Result {
 					if !c.NoRef && S < 200000 {
 						o3, _, _ := limitedParse(api, in, 0, false, 0, env.EntrySites)
 						if !o3.same(ref[api]) {
-							res.Violations = append(res.Violations, C11Violation{Kind: "residue", API: apiNames[api], N: n,
-								Detail: "after an aborted parse, an unlimited parse of the same input deviates", Got: o3, Want: ref[api]})
+							viol("residue", n, 0, "after an aborted parse, an unlimited parse of the same input deviates", o3)
 						}
 					}
 				}
@@ -450,8 +538,7 @@ func RunC11Case(env *C11Env, c C11Case, seed uint64) C11Result {
 					haveOK, firstOK, okOutcome = true, n, o
 				}
 			default:
-				res.Violations = append(res.Violations, C11Violation{Kind: "third-outcome", API: apiNames[api], N: n,
-					Detail: "neither the unlimited result nor a nil result with the max-expressions error", Got: o, Want: ref[api]})
+				viol("third-outcome", n, 0, "neither the unlimited result nor a nil result with the max-expressions error", o)
 			}
 			if len(res.Violations) > 8 {
 				break
